@@ -11,6 +11,7 @@
                                     multiplied, which dipole rows are taken, whether Source2MEGMat.getcol(i) is added).
    -> coq/Gen/GenGain.v.  Anything not of the expected shape is a reported problem (never guessed)."""
 import os, re, sys
+SERVES = ("C04",)   # properties whose check reports this translator's problems (lib/gencoq.py, core.Check.proofs)
 sys.path.insert(0, os.path.join(os.path.dirname(os.path.abspath(__file__)), "..", "lib"))
 import gencoq
 
